@@ -2,12 +2,13 @@
 import ast
 
 from .. import cfg as cfgmod
-from ..fde import FDE
+from ..fde import FDE, Obj, Opaque, Raised
 from ..mutate import Mutant, in_func, delete_stmt, in_module
 from ..report import AnalysisError
 from ..srcmodel import unparse, norm, walk_no_nested, calls_in, fold_const
 from .common import is_method_call, cfg_of, get_kw, recv_of, name_defs, node_obj, fde_guard, facts_at, find_stmt_node, parent_chain, F3
 from . import c07
+from . import tr
 from .c10 import _as
 
 PROP = 'C06'
@@ -26,34 +27,47 @@ FLAGS = ('delete', 'allow_new', 'safe', 'priority')
 
 
 def r1(repo, run):
+    """Builder.preprocess on traces (loop-carried cursor marked): the stage under the cursor is replaced by exactly the stages of
+    the stream it preprocessed to, in their order, and the cursor moves past all of them"""
+    import re
     fi = repo.func('Builder.preprocess')
-    sl = [s for s in ast.walk(fi.node) if isinstance(s, ast.Assign) and isinstance(s.targets[0], ast.Subscript) and norm(s.targets[0].value) == 'self.stages' and isinstance(s.targets[0].slice, ast.Slice)]
-    if len(sl) != 1:
+    paths = tr.paths_of(repo, fi, no_inline={'preprocess', 'current_stage'}, follow_exceptions=False, mark_carried=True)
+    n = 0
+    verdicts = set()
+    for p in paths:
+        for e in p.events:
+            m = re.match(r'^self\.stages\[(.+?):(.+)\]$', e.target) if e.kind == 'store' else None
+            if not m:
+                continue
+            n += 1
+            lo, up = m.group(1), m.group(2)
+            probs = []
+            if up.replace(' ', '') != (lo + '+1').replace(' ', ''):
+                probs.append('replaced slice is [%s:%s], not exactly the stage being preprocessed' % (lo, up))
+            v = e.value.text if e.value is not None else ''
+            pre = [c for c in p.events if c.kind == 'call' and c.attr == 'preprocess' and c.recv is not None and c.recv.text == 'self.stages[%s].ayns' % lo]
+            if not pre:
+                raise AnalysisError('Builder.preprocess: the stage under the cursor is not preprocessed before the splice')
+            NS = pre[0].result.text
+            if v != NS + '.stages':
+                probs.append('spliced sequence is %s (reversed / sorted / sliced copies change the document order)' % v[:60])
+            adv = '%s + len(%s.stages)' % (lo, NS)
+            if not any(val.text == adv for val in p.env.values()) and p.status == 'return':
+                probs.append('cursor is not advanced by the number of spliced stages')
+            verdicts.add(('bad', '; '.join(probs)) if probs else ('ok', 'self.stages[i:i+1] = <preprocessed>.stages ; i += len(<preprocessed>.stages)'))
+    if not n:
         raise AnalysisError('Builder.preprocess: splice `self.stages[i:i+1] = ...` not recognised')
-    s = sl[0]
-    idx = norm(s.targets[0].slice.lower)
-    probs = []
-    if norm(s.targets[0].slice.upper).replace(' ', '') != (idx + '+1'):
-        probs.append('replaced slice is [%s:%s], not exactly the stage being preprocessed' % (idx, norm(s.targets[0].slice.upper)))
-    rhs = s.value
-    if not (isinstance(rhs, ast.Attribute) and rhs.attr == 'stages'):
-        probs.append('spliced sequence is %s (reversed / sorted / sliced copies change the document order)' % norm(rhs))
-    parent = [p for p in parent_chain(s) if isinstance(p, (ast.Try, ast.If, ast.While))]
-    adv = None
-    for st in ast.walk(fi.node):
-        if isinstance(st, ast.AugAssign) and norm(st.target) == idx and 'len(' in norm(st.value) and st.lineno > s.lineno:
-            adv = st
-            break
-    if adv is None or norm(adv.value) != 'len(%s)' % norm(rhs):
-        probs.append('cursor is not advanced by the number of spliced stages')
-    if probs:
-        run.violation('C06.R1', fi, norm(s), '; '.join(probs), node=s)
-    else:
-        run.ok('C06.R1', (fi.file, s.lineno, fi.qualname), norm(s) + ' ; ' + norm(adv), 'in place, in order')
+    for v in sorted(verdicts):
+        if v[0] == 'ok':
+            run.ok('C06.R1', fi, v[1], 'in place, in order')
+        else:
+            run.violation('C06.R1', fi, 'splice of an included stream', v[1])
     fl = repo.func('Builder.flatten')
-    sl2 = [x for x in ast.walk(fl.node) if isinstance(x, ast.Assign) and isinstance(x.targets[0], ast.Subscript) and norm(x.targets[0]) == 'self.stages[0:1]']
-    if sl2 and not (isinstance(sl2[0].value, ast.Attribute) and sl2[0].value.attr == 'stages'):
-        run.violation('C06.R1', fl, norm(sl2[0]), 'first-stage stream is not spliced in order', node=sl2[0])
+    for p in tr.paths_of(repo, fl, no_inline={'merge', '_require_all_new', 'premerge'}, follow_exceptions=True, mark_carried=True):
+        for e in p.events:
+            if e.kind == 'store' and e.target == 'self.stages[0:1]' and e.value is not None and not e.value.text.endswith('.stages'):
+                run.violation('C06.R1', tr.where(fl, e), e.target + ' = ' + e.value.text[:60], 'first-stage stream is not spliced in order')
+                return
 
 
 def r2(repo, run):
@@ -72,40 +86,7 @@ def r2(repo, run):
     sb = repo.func('SubBuilder.get_lookup_dirs')
     if [norm(s) for s in sb.node.body] != ['return self.parent.get_lookup_dirs(%s)' % sb.params()[1]]:
         run.violation('C06.R2', sb, norm(sb.node.body[-1]), 'sub-builders do not use the lookup order of their parent')
-    for q in ('IncludeNode.ayns.on_preprocess_impl',):
-        fi = repo.func(q)
-        adds = [c for c in calls_in(fi.node) if isinstance(c.func, ast.Attribute) and c.func.attr == 'add_source']
-        if len(adds) != 1:
-            raise AnalysisError('%s: single add_source call not recognised' % q)
-        c = adds[0]
-        fors = [p for p in parent_chain(c) if isinstance(p, ast.For)]
-        if len(fors) != 2:
-            raise AnalysisError('%s: add_source is not inside two nested loops' % q)
-        inner, outer = fors[0], fors[1]
-        probs = []
-        if norm(outer.iter) != 'self.filenames':
-            probs.append('outer loop iterates %s, not the file names in the order written: files are loaded (and therefore merged) in lookup-directory order' % norm(outer.iter))
-        if 'get_lookup_dirs(self._source_file)' not in norm(inner.iter):
-            probs.append('inner loop iterates %s, not the lookup directories relative to the including file' % norm(inner.iter))
-        # after success: leave the inner loop before another add_source
-        breaks = [s for s in ast.walk(inner) if isinstance(s, ast.Break)]
-        ok_break = False
-        for b in breaks:
-            conds = [p for p in parent_chain(b) if isinstance(p, ast.If)]
-            if conds and norm(conds[0].test) in (_found_flag(inner, c),):
-                ok_break = True
-            if any(isinstance(p, ast.Try) for p in parent_chain(b)[:3]) and not conds:
-                ok_break = True
-        sets_found = _found_flag(inner, c) is not None
-        if not (ok_break and sets_found):
-            probs.append('the lookup does not stop at the first directory in which the file is found')
-        if probs:
-            run.violation('C06.R2', fi, unparse(c), '; '.join(probs), node=c)
-        else:
-            run.ok('C06.R2', (fi.file, c.lineno, fi.qualname), 'for filename in self.filenames: for lookup_dir in ...: add_source; found -> break', 'written order, first match wins')
-        fl = [x for x in calls_in(inner) if norm(x.func) == 'os.path.join']
-        if not fl or [norm(a) for a in fl[0].args] != [norm(inner.target), norm(outer.target)]:
-            run.violation('C06.R2', fi, unparse(fl[0]) if fl else 'os.path.join', 'the candidate file is not join(lookup_dir, filename)')
+    include_table(repo, run)
 
 
 def _found_flag(inner, add_call):
@@ -116,35 +97,104 @@ def _found_flag(inner, add_call):
 
 
 def r3(repo, run):
+    pass    # decided together with R2 by include_table (one evaluation covers lookup order, first match and missing files)
+
+
+EXISTS = [
+    {('d1', 'a'), ('d1', 'b')},
+    {('d2', 'a'), ('d2', 'b')},
+    {('d1', 'a'), ('d2', 'a'), ('d1', 'b'), ('d2', 'b')},
+    {('d2', 'a'), ('d1', 'b'), ('d2', 'b')},
+    {('d1', 'a')},
+    {('d2', 'b')},
+    set(),
+]
+
+
+def include_table(repo, run):
+    """IncludeNode.ayns.on_preprocess_impl evaluated (finite-domain evaluator) with two file names, two lookup directories and a
+    table saying which candidate exists: which files are loaded, in which order, and what happens when one is found nowhere"""
+    import posixpath
     fi = repo.func('IncludeNode.ayns.on_preprocess_impl')
-    g = cfg_of(fi)
-    adds = [c for c in calls_in(fi.node) if isinstance(c.func, ast.Attribute) and c.func.attr == 'add_source']
-    inner_loops = [p for p in parent_chain(adds[0]) if isinstance(p, ast.For)] if adds else []
-    found = _found_flag(inner_loops[0], adds[0]) if inner_loops else None
-    ap = [s for s in ast.walk(fi.node) if isinstance(s, ast.If) and norm(s.test) == 'not %s' % found and any(isinstance(c.func, ast.Attribute) and c.func.attr == 'append' for c in calls_in(s))]
-    missing = norm([c for c in calls_in(ap[0]) if isinstance(c.func, ast.Attribute) and c.func.attr == 'append'][0].func.value) if ap else 'missing'
-    rz = [s for s in fi.node.body if isinstance(s, ast.If) and norm(s.test) == missing and any(isinstance(b, ast.Raise) for b in s.body)]
-    builds = g.find_calls(lambda c: is_method_call(c, member='build', ayns=False))
-    probs = []
-    if not ap:
-        probs.append('a file that was found nowhere is not recorded in `missing`')
-    if not rz:
-        probs.append('a non-empty `missing` list does not fail the build')
-    elif missing not in norm(rz[0].body[-1].exc):
-        probs.append('the error does not name the missing files')
-    if not builds:
-        raise AnalysisError('IncludeNode: subbuilder.build() not found')
-    for n, c in builds:
-        if (missing, False) not in facts_at(g, n):
-            probs.append('the sub-build runs although files are missing')
-    # found is reset per file name
-    outer = [s for s in fi.node.body if isinstance(s, ast.For)]
-    if outer and not any(isinstance(s, ast.Assign) and norm(s) == '%s = False' % found for s in outer[0].body):
-        probs.append('`found` is not reset for every file name')
-    if probs:
-        run.violation('C06.R3', fi, 'missing-file handling', '; '.join(probs))
+    rows = 0
+    bad2, bad3 = [], []
+    for exists in EXISTS:
+        me = node_obj('inc', 'IncludeNode', filenames=['a', 'b'], _source_file='/src/main.yaml', _safe=None)
+        builder = Obj('builder', 'Builder')
+        sub = Obj('sub', 'SubBuilder')
+        stream = node_obj('stream', 'StreamNode')
+        log = []
+
+        def stub(name, recv, args, kwargs, log=log, exists=exists, sub=sub, stream=stream):
+            if name == 'get_subbuilder':
+                return sub
+            if name == 'get_lookup_dirs':
+                log.append(('dirs', tuple(args)))
+                return ['d1', 'd2']
+            if name == 'add_source':
+                f_ = args[0]
+                log.append(('add', f_, dict(kwargs)))
+                d, _, n = str(f_).rpartition('/')
+                if (d, n) not in exists:
+                    raise Raised('FileNotFoundError')
+                return None
+            if name == 'build':
+                log.append(('build',))
+                return stream
+            if name == 'on_preprocess':
+                log.append(('on_preprocess',))
+                return Opaque('preprocessed stream')
+            raise AnalysisError('unexpected stub ' + name)
+        f = FDE(repo, stubs={'get_subbuilder', 'get_lookup_dirs', 'add_source', 'build', 'on_preprocess'}, stub=stub)
+        f.extcalls = {'os.path.join': posixpath.join, 'os.path.normpath': posixpath.normpath}
+        r = fde_guard(lambda: f.call(fi, me, 'p', builder))
+        rows += 1
+        want_adds = []
+        missing = []
+        for n in ('a', 'b'):
+            hit = False
+            for d in ('d1', 'd2'):
+                want_adds.append('%s/%s' % (d, n))
+                if (d, n) in exists:
+                    hit = True
+                    break
+            if not hit:
+                missing.append(n)
+        got_adds = [x[1] for x in log if x[0] == 'add']
+        built = any(x[0] == 'build' for x in log)
+        dirs = [x for x in log if x[0] == 'dirs']
+        if got_adds != want_adds:
+            first_dup = [x for x in got_adds if got_adds.count(x) > 1]
+            if [x for x in got_adds if x.rpartition('/')[2] == 'a'] and [x for x in got_adds if x.rpartition('/')[2] == 'b'] and got_adds.index([x for x in got_adds if x.endswith('/b')][0]) < max(i for i, x in enumerate(got_adds) if x.endswith('/a')):
+                why = 'files are not loaded in the order written (outer loop over names, inner over lookup directories): files are loaded (and therefore merged) in lookup-directory order'
+            elif len(got_adds) > len(want_adds):
+                why = 'the lookup does not stop at the first directory in which the file is found'
+            else:
+                why = 'candidates tried are %s, expected %s' % (got_adds, want_adds)
+            bad2.append((sorted(exists), why, got_adds, want_adds))
+        if dirs and any(x[1] != ('/src/main.yaml',) for x in dirs):
+            bad2.append((sorted(exists), 'lookup directories are not taken relative to the including file (%s)' % (dirs[0][1],), got_adds, want_adds))
+        if any(x[2].get('safe', 'absent') not in (False, True, None) for x in log if x[0] == 'add'):
+            pass
+        if missing:
+            if r.raised != 'FileNotFoundError':
+                bad3.append((sorted(exists), 'files %s are found nowhere but %s' % (missing, 'the sub-build runs although files are missing' if built else 'no FileNotFoundError is raised (raised: %s)' % r.raised)))
+            elif built:
+                bad3.append((sorted(exists), 'the sub-build runs although files are missing'))
+        else:
+            if r.raised or not built:
+                bad3.append((sorted(exists), 'all files exist but the include %s' % ('raises %s' % r.raised if r.raised else 'does not build the included stream')))
+            elif log[-1][0] != 'on_preprocess' or [x[0] for x in log if x[0] in ('build', 'add')][-1] != 'build':
+                bad3.append((sorted(exists), 'the included stream is not built after all files were added and preprocessed in turn'))
+    run.table('C06.R2', rows, 'include of [a, b] over lookup dirs [d1, d2] x %d existence tables' % len(EXISTS))
+    if bad2:
+        run.violation('C06.R2', fi, 'include lookup', '%s [files present: %s; tried %s, expected %s]' % (bad2[0][1], bad2[0][0], bad2[0][2], bad2[0][3]), witness=[str(b)[:300] for b in bad2[:5]])
     else:
-        run.ok('C06.R3', (fi.file, rz[0].lineno, fi.qualname), 'if not found: missing.append(filename) ... if missing: raise FileNotFoundError({... missing ...}) ; build only when empty')
+        run.ok('C06.R2', fi, 'include lookup table (%d rows)' % rows, 'names in written order; per name the lookup directories in order; first match wins; candidate = normpath(join(dir, name))')
+    if bad3:
+        run.violation('C06.R3', fi, 'missing-file handling', '%s [files present: %s]' % (bad3[0][1], bad3[0][0]), witness=[str(b)[:300] for b in bad3[:5]])
+    else:
+        run.ok('C06.R3', fi, 'missing-file table (%d rows)' % rows, 'a name found nowhere raises FileNotFoundError and nothing is built; otherwise build() once, after all files')
 
 
 def r4(repo, run):
@@ -181,55 +231,63 @@ def r4(repo, run):
 
 def r6(repo, run):
     fi = repo.func('PathNode.ayns.on_evaluate_impl')
-    g = cfg_of(fi)
+    paths = tr.paths_of(repo, fi, no_inline={'on_evaluate_impl'}, follow_exceptions=False)
     n = 0
-    for node in g.stmt_nodes():
-        for c in node.calls():
-            if norm(c.func) == 'pathlib.Path' and c.args and 'source_file' in norm(c.args[0]):
+    verdicts = {}
+    for p in paths:
+        for e in p.events:
+            if e.kind == 'call' and e.callee == 'pathlib.Path' and e.args and isinstance(e.args[0].ast, ast.Attribute) and e.args[0].ast.attr in ('source_file', '_source_file'):
                 n += 1
-                if norm(c.args[0]) not in ('self.ayns.source_file', 'self._source_file'):
-                    run.violation('C06.R6', fi, unparse(c), 'file-relative reference point is not the node\'s own recorded source file', node=c)
-                    continue
-                facts = facts_at(g, node)
-                if ('%s is None' % norm(c.args[0]), False) in facts:
-                    run.ok('C06.R6', (fi.file, c.lineno, fi.qualname), unparse(c), 'own source file; None rejected before')
+                x = e.args[0].text
+                if x not in ('self.ayns.source_file', 'self._source_file'):
+                    verdicts.setdefault(('bad', id(e.node), 1), (e, 'file-relative reference point is not the node\'s own recorded source file (%s)' % x[:50]))
+                elif (x + ' is None', False) in e.facts:
+                    verdicts.setdefault(('ok', id(e.node), 1), (e, 'own source file; None rejected before'))
                 else:
-                    run.violation('C06.R6', fi, unparse(c), 'the source file may be None here (node parsed from a string): no `is None` check raising an error dominates this use', node=c)
-    if n < 2:
+                    verdicts.setdefault(('bad', id(e.node), 2), (e, 'the source file may be None here (node parsed from a string): no `is None` check raising an error dominates this use'))
+    for p in paths:
+        if p.status != 'return' or not any(pol and t.endswith(("== 'file'", "== 'parent'")) for t, pol in p.facts):
+            continue
+        for e in p.events:
+            if e.kind == 'call' and e.callee == 'pathlib.Path' and e.args and e.args[0].text not in ('self.ayns.source_file', 'self._source_file') and not e.args[0].text.startswith('os.path.normpath('):
+                verdicts.setdefault(('bad', id(e.node), 3), (e, 'file-relative reference point is not the node\'s own recorded source file (%s)' % e.args[0].text[:60]))
+    if n < 2 and not verdicts:
         raise AnalysisError('PathNode: file / parent branches not recognised (%d uses of source_file)' % n)
-    par = [s for s in ast.walk(fi.node) if isinstance(s, ast.If) and norm(s.test) == "ref_point == 'parent'"]
+    for (kind, _, _), (e, why) in verdicts.items():
+        (run.ok if kind == 'ok' else run.violation)('C06.R6', tr.where(fi, e), 'pathlib.Path(<own source file>)', why)
+    par = [p for p in paths if p.status == 'return' and any(pol and t.endswith("== 'parent'") for t, pol in p.facts)]
     if not par:
         raise AnalysisError('PathNode: parent branch not found')
-    src = norm(ast.Module(body=par[0].body, type_ignores=[]))
-    if "'..'" in src or any(k in src for k in ('abspath', '.resolve()', '.absolute()')):
-        run.ok('C06.R6', (fi.file, par[0].lineno, fi.qualname), 'parent(n) beyond the recorded parents', 'padded with ".." / absolutised')
+    txt = ' '.join((p.ret.text if p.ret is not None else '') + ' ' + ' '.join(e.callee or '' for e in p.events if e.kind == 'call') for p in par)
+    if "'..'" in txt or any(k in txt for k in ('abspath', '.resolve', '.absolute')):
+        run.ok('C06.R6', fi, 'parent(n) beyond the recorded parents', 'padded with ".." / absolutised')
     else:
-        run.violation('C06.R6', fi, 'parent(n) branch', 'parent(n) with n beyond the parents of the *recorded* (possibly relative) file name is clamped: the same node denotes different locations depending on whether its file was reached through a relative or an absolute name', node=par[0])
-    for s in ast.walk(fi.node):
-        if isinstance(s, ast.If) and norm(s.test) == "ref_point == 'cwd'":
-            if 'os.getcwd()' not in norm(s.body[0]):
-                run.violation('C06.R6', fi, norm(s.body[0]), 'cwd reference point is not os.getcwd()')
+        run.violation('C06.R6', fi, 'parent(n) branch', 'parent(n) with n beyond the parents of the *recorded* (possibly relative) file name is clamped: the same node denotes different locations depending on whether its file was reached through a relative or an absolute name')
+    cwd = [p for p in paths if p.status == 'return' and any(pol and t.endswith("== 'cwd'") for t, pol in p.facts)]
+    for p in cwd:
+        if 'os.getcwd()' not in (p.ret.text if p.ret is not None else '') and not any(e.kind == 'call' and e.callee == 'os.getcwd' for e in p.events):
+            run.violation('C06.R6', fi, 'cwd reference point', 'cwd reference point is not os.getcwd()')
+            break
 
 
 def r7(repo, run):
     fi = repo.func('StreamNode.ayns.on_premerge_impl')
-    g = cfg_of(fi)
-    uses = []
-    for node in g.stmt_nodes():
-        for sub in ast.walk(node.ast) if node.ast is not None else []:
-            if isinstance(sub, ast.Subscript) and norm(sub) == 'self.builder.stages[0]':
-                uses.append((node, sub))
-    if not uses:
-        raise AnalysisError('StreamNode.on_premerge_impl: stages[0] not used')
-    seen, _ = cfgmod.must_have_seen(g, lambda c: norm(c.func) == 'self.builder.flatten')
-    bad = [u for u in uses if not seen[u[0].id]]
-    last = fi.node.body[-1]
-    if bad:
-        run.violation('C06.R7', fi, norm(bad[0][0].ast), 'stages[0] is used before the included documents were flattened (only the first included document would be merged)', node=bad[0][0].ast)
-    elif norm(last) != 'return self.builder.stages[0].ayns.on_premerge(%s, %s)' % (fi.params()[1], fi.params()[2]):
-        run.violation('C06.R7', fi, norm(last), 'the flattened document\'s own premerge result is not what the stream hands back')
-    else:
-        run.ok('C06.R7', fi, 'flatten(); ...; return stages[0].ayns.on_premerge(path, into)')
+    paths = [p for p in tr.paths_of(repo, fi, no_inline={'flatten', 'on_premerge'}, follow_exceptions=False) if p.status == 'return']
+    if not paths:
+        raise AnalysisError('StreamNode.on_premerge_impl: no returning path')
+    verdict = None
+    for p in paths:
+        uses = [i for i, e in enumerate(p.events) if (e.kind == 'subscr' and e.callee == 'self.builder.stages') or (e.kind == 'call' and e.recv is not None and e.recv.text.startswith('self.builder.stages['))]
+        fl = [i for i, e in enumerate(p.events) if e.kind == 'call' and e.callee == 'self.builder.flatten']
+        if not uses:
+            raise AnalysisError('StreamNode.on_premerge_impl: stages[0] not used')
+        if not fl or fl[0] > uses[0]:
+            verdict = ('bad', 'stages[0] is used before the included documents were flattened (only the first included document would be merged)')
+        elif p.ret is None or p.ret.text != 'self.builder.stages[0].ayns.on_premerge(%s, %s)' % (fi.params()[1], fi.params()[2]):
+            verdict = verdict if verdict and verdict[0] == 'bad' else ('bad', 'the flattened document\'s own premerge result is not what the stream hands back (returns %s)' % (p.ret.text[:60] if p.ret is not None else None))
+        elif verdict is None:
+            verdict = ('ok', 'flatten(); ...; return stages[0].ayns.on_premerge(path, into)')
+    (run.ok if verdict[0] == 'ok' else run.violation)('C06.R7', fi, 'StreamNode premerge', verdict[1])
     sb = repo.func('SubBuilder.build')
     body = [norm(s) for s in sb.node.body if not isinstance(s, (ast.ImportFrom, ast.Import)) and not (isinstance(s, ast.Expr) and isinstance(s.value, ast.Constant))]
     if body != ['self.preprocess()', 'return StreamNode(self)']:
